@@ -27,14 +27,14 @@ m = {
     "setup_cmd": "./check --setup",
     "hooks": {
         "guard": "varlink_rust_verif",
-        "enable": "RUSTFLAGS=--cfg varlink_rust_verif, set in /verif/harness/.cargo/config.toml; the harness path-depends on /repo/* so every check rebuilds from /repo's working tree",
+        "enable": "RUSTFLAGS=--cfg varlink_rust_verif, set in /verif/harness/.cargo/config.toml and /verif/harness_sync/.cargo/config.toml; the harness path-depends on /repo/* so every check rebuilds from /repo's working tree",
         "baseline_off_cmd": "cd /repo && cargo nextest run --workspace --no-fail-fast --tool-config-file pb:/w/lib/nextest.toml --profile pb --test-threads 8 --offline",
         "source_commits": claims.HOOK_COMMITS,
         "add_only": True,
     },
     "engines": claims.ENGINES,
     "checks": checks,
-    "notes": "Design: DESIGN.md. Known/fixed defects: known_findings.json. Seeded property-breaking changes and which check catches them: seeded/ and DESIGN.md section 10.",
+    "notes": "Design: DESIGN.md (section 0: what is implemented; 10: defects found and fixed; 11: seeded changes; 12: false alarms corrected). Known/fixed defects: known_findings.json. Seeded property-breaking changes (180, five rounds) and which check reports which: seeded/MATRIX.md. The sync-granularity parts (mc_sync) run against a copy of /repo/varlink generated into .target/gen/ by tools/gen_sched_copy.py at every build; hooks in /repo are the add-only cfg(varlink_rust_verif) probes of commit f68e2b7.",
     "not_applicable": na,
 }
 json.dump(m, open(os.path.join(V, "MANIFEST.json"), "w"), indent=1)
